@@ -87,6 +87,7 @@ def oracle_recording(strategy, scitype):
             if isinstance(f, Raised):
                 return [unexpected(f, "set_params(window_length)")]
             ctx.label("window_length_via_set_params")
+        base_n = 0
         fh_fit = gen.build_fh(steps, case["fh_kind"])
         if case.get("fh_abs"):
             # the same steps given as absolute time points
@@ -99,7 +100,9 @@ def oracle_recording(strategy, scitype):
             # another index origin: what the regressors see afterwards is the LAST training data
             y0, X0 = build(dict(case, n=case["n"] + 4, vseed=case["vseed"] + 1, start=case["start"] + 3))
             sut(f.fit, y0, X0, gen.build_fh(steps, "list"))
-            doubles.LOG.clear()
+            # (the log is kept: every regressor carries the position of its own fit in it, so
+            # regressors left over from the earlier fit are told apart from the new ones)
+            base_n = len(doubles.LOG)
             ctx.label("refitted")
         r = sut(f.fit, y, X, fh_fit)
         hmax_fit = 1 if strategy == "recursive" else steps[-1]
@@ -124,7 +127,7 @@ def oracle_recording(strategy, scitype):
             ctx.label("exog")
         yv = y.to_numpy()
         Xv = None if X is None else X.to_numpy()
-        fits = [e for e in doubles.LOG if e[0] == "fit"]
+        fits = [e for e in doubles.LOG[base_n:] if e[0] == "fit"]
         # ---------------- training rows
         if strategy == "recursive":
             F, T = ref_rows(yv, Xv, wl, [1], scitype)
@@ -194,11 +197,13 @@ def oracle_recording(strategy, scitype):
                 exp_pred = [float(doubles._lin(exp_calls[0].reshape(1, -1), 3)[0])] * len(steps)
                 # each estimator must be the one fitted for that step
                 ids = [c[2] for c in calls]
-                log_fit_ids = [i_ for i_, e in enumerate(doubles.LOG) if e[0] == "fit"]
+                log_fit_ids = [i_ for i_, e in enumerate(doubles.LOG) if e[0] == "fit" and i_ >= base_n]
                 if ids != log_fit_ids:
                     discs.append(D("estimator_step_mismatch", "predict used fits %s expected %s" % (ids, log_fit_ids)))
             else:
                 exp_pred = [float(doubles._lin(exp_calls[0].reshape(1, -1), 3 + 7 * k)[0]) for k in range(len(steps))]
+                if calls and calls[0][2] is not None and calls[0][2] < base_n:
+                    discs.append(D("estimator_step_mismatch", "multioutput predict used the regressor of an earlier fit (%s)" % calls[0][2]))
         elif strategy == "recursive":
             hm = steps[-1]
             buf = np.zeros((1, last.shape[1], wl + hm))
@@ -225,7 +230,7 @@ def oracle_recording(strategy, scitype):
             if len(calls) != len(steps):
                 discs.append(D("n_predict_calls", "dirrec: %d predict calls expected %d" % (len(calls), len(steps))))
                 return discs
-            log_fit_ids = [i_ for i_, e in enumerate(doubles.LOG) if e[0] == "fit"]
+            log_fit_ids = [i_ for i_, e in enumerate(doubles.LOG) if e[0] == "fit" and i_ >= base_n]
             for i in range(len(steps)):
                 e = shape_in(buf[:, :, : wl + i].copy())
                 if not arr_eq(calls[i][3], e):
